@@ -675,7 +675,13 @@ func (x *Exec) step(st *State, ins ssa.Instruction) {
 					fr.names[id.Name] = lr
 				}
 			} else {
-				fr.names[id.Name] = v
+				// a variable that lives in a cell (or a register local) keeps its address binding: a read of it
+				// must not replace the name by a snapshot of the value it had at that read
+				switch fr.names[id.Name].(type) {
+				case nameAddr, AD, localRef:
+				default:
+					fr.names[id.Name] = v
+				}
 			}
 		}
 		next()
